@@ -147,7 +147,8 @@ def krome_file(draw, nmax=12):
         for c in cols:
             t = names[c]
             toks.append(t.lower() if spell == "lower" else t.upper() if spell == "upper" else t)
-        return cols, "@format:" + ",".join(toks)
+        # (a blank after the commas of the directive, as after the commas of a data line)
+        return cols, "@format:" + (", " if draw(st.integers(0, 5)) == 0 else ",").join(toks)
 
     standard = draw(st.integers(0, 3)) == 0
     if standard:
